@@ -70,6 +70,7 @@ type Case struct {
 	DResp     int       `json:"designated_resp_size"`
 	Seed      uint64    `json:"seed"` // expanded per client: sizes, upstream delays and think times of all other requests
 	Quiet     bool      `json:"quiet_after_signal"` // SIGTERM only: the clients start no further requests once the signal is sent
+	Holder    string    `json:"holder_proto"`       // SIGTERM only: protocol of one more request that the upstream holds across the signal until every listener refuses connects
 }
 
 func sizeGen(min int) *rapid.Generator[int] {
@@ -94,6 +95,7 @@ func genCase(rt *rapid.T, signal string) Case {
 	c.Seed = rapid.Uint64().Draw(rt, "seed")
 	if signal == "SIGTERM" {
 		c.Quiet = rapid.Bool().Draw(rt, "quiet")
+		c.Holder = rapid.SampledFrom(protos).Draw(rt, "holder")
 	}
 	return c
 }
@@ -126,6 +128,7 @@ type run struct {
 	sig     syscall.Signal
 	t0      time.Time
 	desig   *plan
+	holder  *plan
 	pieceGap time.Duration
 
 	gate      sync.RWMutex
@@ -178,6 +181,13 @@ func (r *run) gated(f func() error) (before bool, err error) {
 // fire sends the signal (once), after the generated extra delay.
 func (r *run) fire() {
 	r.fireOnce.Do(func() {
+		if r.holder != nil { // the held request must be at the upstream before the signal goes out
+			select {
+			case <-r.holder.reached:
+			case <-r.stop:
+			case <-time.After(startDeadline):
+			}
+		}
 		time.Sleep(time.Duration(r.cs.ExtraMs) * time.Millisecond)
 		r.gate.Lock()
 		r.inflAtSig = atomic.LoadInt32(&r.inflight)
@@ -272,6 +282,37 @@ func (r *run) client(id int) {
 			case <-r.stop:
 			case <-time.After(time.Duration(think) * time.Millisecond):
 			}
+		}
+	}
+}
+
+// holderClient sends one warm-up request and then the request that the upstream holds across the signal.
+func (r *run) holderClient() {
+	defer r.wg.Done()
+	const id = 9
+	proto := r.cs.Holder
+	var conn xconn
+	for conn == nil && !r.stopped() {
+		c, err := r.dial(proto)
+		if err != nil {
+			time.Sleep(5 * time.Millisecond)
+			continue
+		}
+		conn = c
+	}
+	if conn == nil {
+		return
+	}
+	defer conn.close()
+	for seq, p := range []*plan{newPlan(fmt.Sprintf("k%d-holder-warm", r.no), 10, 10, 0), r.holder} {
+		r.ups[proto].add(p)
+		res := &result{Client: id, Seq: seq, Proto: proto, Token: p.Token, Holder: p == r.holder, KeepAlive: true, StartMs: r.ms(), ReqSize: p.ReqSize, RespSize: p.RespSize, plan: p}
+		conn.do(p, nil, res)
+		res.EndMs = r.ms()
+		r.record(res)
+		if !res.ok() {
+			r.holder.reach() // never stall the case
+			return
 		}
 	}
 }
@@ -527,11 +568,18 @@ func execute(cs Case) (o *outcome, r *run, infra string) {
 		r.desig.HoldAt = cs.Phase
 	}
 	r.ups[cs.Proto].add(r.desig)
+	if cs.Signal == "SIGTERM" && cs.Holder != "" {
+		r.holder = newPlan(fmt.Sprintf("k%d-holder", r.no), 64, 640, 0)
+		r.holder.HoldAt = "up-hold"
+	}
 	released := false
 	release := func() {
 		if !released {
 			released = true
 			close(r.desig.release)
+			if r.holder != nil {
+				close(r.holder.release)
+			}
 		}
 	}
 	defer release()
@@ -542,6 +590,10 @@ func execute(cs Case) (o *outcome, r *run, infra string) {
 		go r.client(i)
 	}
 	go r.prober()
+	if r.holder != nil {
+		r.wg.Add(1)
+		go r.holderClient()
+	}
 	if cs.Signal == "SIGHUP" {
 		r.wg.Add(1)
 		go r.client(nClients)
@@ -569,8 +621,8 @@ func execute(cs Case) (o *outcome, r *run, infra string) {
 	post := time.Duration(cs.PostMs) * time.Millisecond
 
 	if cs.Signal == "SIGTERM" {
-		if r.desig.HoldAt != "" {
-			// keep the request in flight until the listener is seen closed (or the cap: then it is still open while draining)
+		if r.desig.HoldAt != "" || r.holder != nil {
+			// keep the held request(s) in flight until every listener is seen closed (or the cap: then one is still open while draining)
 			capT := time.After(listenCloseCap)
 		wait:
 			for {
